@@ -698,7 +698,7 @@ func lexCommentExtent(c *Ctx, commentV int64) {
 					good := false
 					switch cd := iff.Cond.(type) {
 					case *ssa.Call:
-						if cd.Call.StaticCallee() != nil && cd.Call.StaticCallee().Name() == "isEOL" && si == 0 {
+						if cd.Call.StaticCallee() != nil && fnName(cd.Call.StaticCallee()) == "isEOL" && si == 0 {
 							good = true
 						}
 					case *ssa.BinOp:
@@ -726,7 +726,7 @@ func lexCommentExtent(c *Ctx, commentV int64) {
 			var idx ssa.Value
 			allInstrs(f, func(in ssa.Instruction) {
 				call, ok := in.(*ssa.Call)
-				if !ok || call.Call.StaticCallee() == nil || call.Call.StaticCallee().Pkg == nil || call.Call.StaticCallee().Pkg.Pkg.Path() != "strings" || !strings.HasPrefix(call.Call.StaticCallee().Name(), "Index") {
+				if !ok || call.Call.StaticCallee() == nil || call.Call.StaticCallee().Pkg == nil || call.Call.StaticCallee().Pkg.Pkg.Path() != "strings" || !strings.HasPrefix(fnName(call.Call.StaticCallee()), "Index") {
 					return
 				}
 				if len(call.Call.Args) == 2 {
